@@ -16,6 +16,7 @@ From Coq Require Import List String ZArith Bool Arith.
 Import ListNotations.
 From Onet Require Import Api.Rest Api.RestConc Api.RestProofs Api.RestConcProofs Api.Par Api.ParProofs
                          Api.Spec Api.SpecProofs Api.LiveProofs Corr.C14 Api.CheckProofs.
+From Onet Require Api.StreamStop Api.StreamStopProofs.
 Local Open Scope string_scope.
 
 (* ==== 1. The model refines the specification ============================================== *)
@@ -504,3 +505,15 @@ Theorem c14_barrier_streaming_lost_refuted :
   exists h m, call_interface false true h m = CCrash /\ call_interface false false h m <> CCrash.
 Proof. exact barrier_streaming_lost_refuted. Qed.
 Print Assumptions c14_barrier_streaming_lost_refuted.
+
+(* Round 7 (seeded change C14-L): several requests of one stream may share ONE stop channel;
+   when the client goes away every request's stopper wants to close it. With "test, else
+   close" under the mutex (mutex = true, the code as it is) no interleaving of any number of
+   stoppers closes a channel twice, so the server survives the disconnect and the requests
+   of other clients afterwards are answered (case kind CShare, clause 4). The model and the
+   proof are Api/StreamStop.v / StreamStopProofs.v (shared with C15). *)
+Theorem c14_shared_stop_closed_once : forall chans acts s,
+  Onet.Api.StreamStop.srun1 true (Onet.Api.StreamStop.sinit1 chans) acts = Some s ->
+  Onet.Api.StreamStop.scrash s = false /\ NoDup (Onet.Api.StreamStop.closes s).
+Proof. exact Onet.Api.StreamStopProofs.stop_closed_once. Qed.
+Print Assumptions c14_shared_stop_closed_once.
